@@ -23,10 +23,10 @@ How to run things: the Python with all dependencies is /venv/bin/python. The ins
   cd {wt} && PYTHONPATH={wt}/src /venv/bin/python -m pytest -q -p no:cacheprovider -x tests/<relevant dir>
 and finally the whole suite (about 4 minutes; some tests error because they need the network — those same tests also error without your change; ignore them, but no test that passes without your change may fail with it):
   cd {wt} && PYTHONPATH={wt}/src /venv/bin/python -m pytest -q -p no:cacheprovider --timeout=900 2>&1 | tail -15
-Compare against the unmodified tree (git stash / git diff) if in doubt which failures are pre-existing.
+Compare against the unmodified tree if in doubt which failures are pre-existing — toggle your change with `git apply -R SEED/patch.diff` / `git apply SEED/patch.diff`; do NOT use `git stash` (the stash is shared between all worktrees of this repository and other agents use it too).
 
 Deliverables, all inside {wt}/SEED/ (create the directory):
   1. patch.diff — `git -C {wt} diff -- src` of your change (unified diff, paths a/src/... b/src/...).
-  2. demo.py — a small standalone program that exits 0 and prints "PROPERTY HOLDS" on the unmodified code and exits 1 and prints "PROPERTY VIOLATED: <what>" with your change applied. It must judge the property with an independent oracle (the mathematical definition / the documented format), not by comparing against recorded outputs of the unmodified code. Run it with PYTHONPATH={wt}/src /venv/bin/python SEED/demo.py both ways (use `git stash` or `git apply -R SEED/patch.diff` to get the unmodified code) and make sure it behaves as described.
+  2. demo.py — a small standalone program that exits 0 and prints "PROPERTY HOLDS" on the unmodified code and exits 1 and prints "PROPERTY VIOLATED: <what>" with your change applied. It must judge the property with an independent oracle (the mathematical definition / the documented format), not by comparing against recorded outputs of the unmodified code. Run it with PYTHONPATH={wt}/src /venv/bin/python SEED/demo.py both ways (use `git apply -R SEED/patch.diff` to get the unmodified code; never `git stash`, it is shared with other worktrees) and make sure it behaves as described.
   3. meta.json — {{"property": "{pid}", "summary": "<one sentence: what the change does>", "needs": "<what specific input / sequence / configuration is needed for the violation to manifest>", "files": [...], "tests_run": "<the commands you ran and their outcome, incl. the number of passed tests with and without the change>"}}.
 Leave the worktree with your change APPLIED at the end. In your final message give: the diff, what it needs to manifest, demo output with and without the change, and the full-suite result with the change.""")
